@@ -186,16 +186,16 @@ def expected_fields(st, topname, forknames, tz, version, ns):
     chain = [topname] + forknames
     exp["rpname"] = chain[0][:15] if ns else None
     now = st["now"]
-    exp["timestamp"] = {b"%d" % (now + d) for d in (-1, 0, 1, 2)}
+    exp["timestamp"] = {b"%d" % (now + d) for d in (-1, 0, 1, 2, 3, 4, 5)}
     exp["ms"] = re.compile(rb"^\d{3}$")
     exp["us"] = re.compile(rb"^\d{6}$")
     os.environ["TZ"] = envd.get(b"TZ", b"UTC").decode()
     time.tzset()
     def fmts(f):
-        return {time.strftime(f, time.localtime(now + d)).encode() for d in (-1, 0, 1, 2)}
+        return {time.strftime(f, time.localtime(now + d)).encode() for d in (-1, 0, 1, 2, 3, 4, 5)}
     exp["datetime"] = fmts("%Y-%m-%dT%H:%M:%S%z")
     exp["dt_date"] = fmts("%Y-%m-%d %H")
-    exp["dt_epoch"] = {b"%d" % (now + d) for d in (-1, 0, 1, 2)}
+    exp["dt_epoch"] = {b"%d" % (now + d) for d in (-1, 0, 1, 2, 3, 4, 5)}
     exp["dt_zone"] = fmts("%z")
     exp["version"] = version
     exp["env_all"] = b",".join(envs)
@@ -298,5 +298,5 @@ def run(tier, seed, replay=None):
         rep.sample(dict(steps=h["steps"]))
     rep.assumptions += ["domain, ipaddr, systemd_unit_name and snoopy_configure_command are not compared (they depend on resolver / utmp / systemd state the sandbox lacks)",
                         "names for ids without passwd/group entries are only required to mention the number (or '(undefined)' for groups)",
-                        "time-valued sources must format a second within [t, t+2] of the harness's own clock reading, in the TZ of the process"]
+                        "time-valued sources must format a second within [t-1, t+5] of the harness's own clock reading, in the TZ of the process"]
     return rep.finish()
